@@ -1106,6 +1106,26 @@ def tree_units(prop, tier):
             add("fragment with a form owner: %r script rest" % c, [c, "<script>s</script>", "</template><input><", N1, ">"], {"context": [HTML_NS_, "div"], "form": True})
         add("fragment with a script pause", ["<b>", "<script>s</script>", "<", N1, ">x</", N1, ">"], {"context": [HTML_NS_, "div"]})
         add("fragment in a template context", ["<td>", "<script>s</script>", "<", N2, ">x</", N1, ">"], {"context": [HTML_NS_, "template"]})
+    elif prop == "C20":
+        R = {"rcdom": True}
+        ctxs = ["", "<table>", "<table><tr><td>", "<select>", "<p><b>", "<template>", "<svg>", "<a>", "<ul><li>", "<table><caption>", "<b><table><td>", "<math><annotation-xml>", "<frameset>", "<head>"]
+        for c in (ctxs if not q else ctxs[:9]):
+            add("%r start tag (2 letters), text, end tag" % c, [c, "<", N2, ">", W1, "</", N1, ">y"], R)
+            add("%r text, symbolic tags, text (text merging around inserted / foster-parented nodes)" % c, [c, W1, "<", N1, ">", W1, "</", N1, ">", W1], R, maxp=3000)
+        for c in (("", "<p>", "<table>", "<template>") if q else ("", "<div>", "<p>", "<table>", "<table><tr><td>", "<template>")):
+            add("%r two elements, a block, end tag (adoption agency: reparent_children, remove_from_parent)" % c, [c, "<", N1, "><", N1, "><p>x</", N1, ">y"], R)
+            add("%r formatting run" % c, [c, "<", N1, "><", N1, ">x<p>y</", N1, ">z</b>w"], R)
+        add("attribute merging on html and body", ["<html ", N1, "=1><html ", N1, "=2 ", N1, "=3><body ", N1, "=4><body ", N1, "=5 ", N1, "=6>"], R)
+        add("attribute merging with duplicate-looking names in one tag", ["<body a=1><body ", N1, "=2 ", N1, "=3 ", N1, "=4>"], R)
+        add("table text: whitespace and non-whitespace runs", ["<table>", W2, "<tr>", W2, "<td>", W1, "</table>", W1], R)
+        add("template contents", ["<template>", W1, "<", N2, ">", W1, "</template>", W1, "<template><template>", W1], R)
+        add("body replaced by frameset", ["<body>", W1, "<", N1, ">", "<frameset>", W1], R)
+        add("comments and doctype", ["<!--", 1, "-->", "<!DOCTYPE ", N1, ">", "<!--", 1, "-->", W1, "<!--x-->"], R)
+        add("text split by NUL, newline swallowed after <pre>", ["<pre>", 2, "</pre>x"], R)
+        add("text split by NUL, newline swallowed after <textarea>", ["<p>a<textarea>", 2, "</textarea>"], R)
+        for cx in (TREE_CONTEXTS[1:] if not q else TREE_CONTEXTS[1:9]):
+            add("fragment in %s" % cx[1], ["<", N2, ">", W1, "</", N1, ">y"], dict(R, context=list(cx)))
+        add("chunked text (append_to_existing_text across feeds)", ["<p>", W2, 1, W1, "<b>", W2], dict(R, chunks=[4, 1, 1, 400]))
     elif prop == "C08":
         # (unit_tree_diff) base options vs one tree-builder option flipped
         dd = {"variant": {"drop_doctype": True}, "no_doctype": True}
@@ -1167,7 +1187,17 @@ def tree_check(out, tier, prop):
     if not tree_self_validate(out, TC, mir, ent, exe, 150 if tier == "quick" else 1500, C.seed()):
         return finish_mc(out, 0, 0, 0, ["self-validation failed"])
     units = tree_units(prop, tier)
+    if prop == "C20":
+        from mirsym import build as _b
+        rc_mir, _, rc_dt = _b.dump_mir("markup5ever_rcdom")
+        out.extra["rcdom_mir_dump_s"] = round(rc_dt, 1)
+        out.extra["source_files"] = TREE_SRC + ["rcdom/lib.rs"]
+        out.extra["source_hash"] = C.src_hash(TREE_SRC + ["rcdom/lib.rs"])
+        for u in units:
+            u["rc_mir"] = rc_mir
     res = TC.run_units_fn(TR.unit_tree, units, mir, ent)
+    if prop == "C20":
+        TC._init(mir, ent, "html5ever")          # tree_finish re-runs counter-examples concretely in this process
     tree_finish(out, TR, prop, res, exe, exe_rel)
     npaths = sum(r["paths"] for r in res)
     obl = sum(r["obligations"] for r in res)
@@ -1218,6 +1248,16 @@ def tree_finish(out, TR, prop, res, exe, exe_rel):
                 elif prop == "C18":
                     confirmed = confirmed or bool(trace)
                     nat_msg = (trace[0] if trace else "") or nat_msg
+                elif prop == "C20":
+                    oo = {k_: x_ for k_, x_ in v["opts"].items() if k_ != "rcdom"}
+                    mo_ = TR.unit_concrete({"doc": doc, "opts": oo})
+                    nt = [l for l in tree if not l.startswith("indicator ")]
+                    if mo_["errors"] or mo_["outcome"] != "ok":
+                        nat_msg = "model run failed: %s" % (mo_["errors"] or mo_["outcome"])
+                    elif nt != mo_["canon"] and not panic:
+                        confirmed = True
+                        k_ = next((i for i, (x_, y_) in enumerate(zip(nt, mo_["canon"])) if x_ != y_), min(len(nt), len(mo_["canon"])))
+                        nat_msg = "RcDom %s | abstract DOM %s" % (nt[k_:k_ + 2], mo_["canon"][k_:k_ + 2])
                 elif prop == "C08":
                     t2, _, _, p2, _ = TR.native_doc(ex, v["chars"], dict(v["opts"], **v["variant"]))
                     strip = (lambda ls: [l for l in ls if " doctype " not in l]) if v.get("no_doctype") else (lambda ls: ls)
@@ -1232,7 +1272,7 @@ def tree_finish(out, TR, prop, res, exe, exe_rel):
                         confirmed = True
                         nat_msg = "reported %s, expected %s" % (ind, want)
             what = {"C04": "the parser panics", "C05": "TreeSink contract broken", "C06": "document skeleton broken", "C18": "trace_handles misses a node",
-                    "C08": "a tree-builder option changes more than it may", "C19": "encoding indicators of feed() are not those of the qualifying meta elements"}[prop]
+                    "C20": "RcDom's tree differs from the abstract DOM of the same sink calls", "C08": "a tree-builder option changes more than it may", "C19": "encoding indicators of feed() are not those of the qualifying meta elements"}[prop]
             if confirmed:
                 out.violation("%s on %r %s: %s [native: %s]" % (what, doc, v["opts"] or "", v["what"][:300], nat_msg[:300]),
                               {"engine": "mirsym", "kind": "htmldoc", "prop": prop, "case": case, "chars": v["chars"], "opts": v["opts"], "native": nat_msg,
@@ -1251,6 +1291,10 @@ def c06(out, tier):
 
 def c18(out, tier):
     return tree_check(out, tier, "C18")
+
+
+def c20(out, tier):
+    return tree_check(out, tier, "C20")
 
 
 def c16_shapes(tier):
@@ -1645,7 +1689,7 @@ def tok_finish_c01(out, TC, tok, prog, results, exe, exe_rel, bounds):
     return npaths, obl
 
 
-PROPS = {"C01": c01, "C10": c10, "C16": c16, "C05": c05, "C06": c06, "C18": c18, "C11": c11, "C12": c12, "C17": c17, "C14": c14, "C15": c15, "C19": c19, "C07": c07, "C13": c13, "C03": c03, "C04": c04, "C08": c08, "C09": c09}
+PROPS = {"C01": c01, "C10": c10, "C16": c16, "C05": c05, "C06": c06, "C18": c18, "C20": c20, "C11": c11, "C12": c12, "C17": c17, "C14": c14, "C15": c15, "C19": c19, "C07": c07, "C13": c13, "C03": c03, "C04": c04, "C08": c08, "C09": c09}
 
 
 def replay(path):
